@@ -218,6 +218,12 @@ def handle (toks : List String) : String :=
       let n := xs.size
       s!"ok 1 {n} " ++ showFloats ((List.range n).map (Poly.ssCoeff n (fun i => xs.getD i 0.0) r0 sc))
     | _, _, _ => "bad-op"
+  -- polyabel rmin rmax x <c…>  → Polynomial(r, rmin, rmax, c).abel at the sample x (< rmax), coefficients as given
+  | "polyabel" :: rmin :: rmax :: x :: rest =>
+    match parseFloat rmin, parseFloat rmax, parseFloat x, parseFloats rest with
+    | some rmin, some rmax, some x, some xs =>
+      s!"ok 1 1 " ++ showFloats [Poly.polyAbelAt xs.size (fun i => xs.getD i 0.0) rmin rmax x]
+    | _, _, _, _ => "bad-op"
   | "aconv" :: na :: rest =>
     match na.toNat?, parseFloats rest with
     | some na, some xs =>
